@@ -5,8 +5,39 @@ from astlib import *
 from cases import *
 import runner
 
+def universe():
+    ax, ay = pred("ge", var("x"), const(0)), pred("le", bi("sub", var("y"), var("x")), const(1))
+    az = pred("ne", un("abs", var("x")), un("neg", const(2)))
+    F = [ax, ay, az, bi("add", var("x"), bi("mul", var("y"), const(2)))]
+    for a in (ax, ay):
+        for op in ["not", "rise", "fall", "prev", "sprev", "next", "snext", "once", "hist", "ev", "alw"]:
+            F.append(un(op, a))
+        for op in UN_TIMED:
+            for iv in [(0, 0), (0, 1), (1, 2), (2, 2), (0, 3)]:
+                F.append(un(op, a, *iv))
+    for op in ["and", "or", "implies", "iff", "xor", "since", "until"]:
+        F.append(bi(op, ax, ay))
+    for op in ["sinceT", "untilT"]:
+        for iv in [(0, 0), (0, 1), (1, 2), (2, 2), (0, 3)]:
+            F.append(bi(op, ax, ay, *iv))
+    F += [un("alw", bi("implies", ax, un("evT", ay, 0, 2))), bi("until", un("once", ax), un("next", ay)),
+          un("hist", bi("sinceT", ay, un("prev", ax), 1, 2)), un("evT", un("alwT", az, 1, 1), 0, 1)]
+    return F
+
+
 def main():
     rep = core.Report("C01")
+    import semmc, mc
+    quick = core.tier() == "quick"
+    F = universe()
+    r = semmc.run("C01_pointwise", forms=F, maxlen=3 if quick else 5, invariants=["PointwiseEq"])
+    rep.add_mc("Sig (signal transformer) = the README's pointwise inductive definition RhoPt: %d formulas x all traces" % len(F), r)
+    if r["violated"]:
+        rep.mc_violation("C01_pointwise", r)
+    r = mc.rtamt_mc("C01_offline", F[::3], [mc.std_cfg(["x", "y"])], maxlen=3, mode="offline", invariants=["InvC01", "InvC13"], properties=["ActC16"])
+    rep.add_mc("offline machine: one value per sample, counter, stability under extension", r)
+    if r["violated"]:
+        rep.mc_violation("C01_offline", r)
     rng = random.Random(core.seed() * 7919 + 1)
     n = 600 if core.tier() == "quick" else 20000
     cases = []
@@ -25,7 +56,10 @@ def main():
     traces = runner.run_cases(cases)
     vs_, gen, dist = core.validate("C01", traces)
     rep.add_traces(traces, vs_, gen, dist, nontrivial_key=lambda c: c["objs"][0]["text"] + str(c["events"][1]["w"]))
-    return rep.finish("random formulas depth<=4 x random traces")
+    return rep.finish("TLC: two independent formulations of the semantics (signal transformer Sem!Sig vs pointwise recursive "
+                      "README definition SemMC!RhoPt) agree on every trace up to MaxLen over {-2,1,3}^2; traces: evaluate() of random "
+                      "formulas over the whole operator set (depth <= 4, 1-3 variables, scales 1/2/4, N in 1..12, regular / irregular "
+                      "time columns, both factories): one pair per sample, stamps echoed, value = Sig, read-back AST = formula")
 
 if __name__ == "__main__":
     core.main(main)
